@@ -469,6 +469,8 @@ func (w *world) mixing(t *rt.Tape, trace bool, res *core.Result, smp *sample, cu
 			fail = &core.Failure{Clause: "wrong-digest", Detail: "honest session"}
 			return
 		}
+		rt.LogBytes('1', s1.M1) // the case is part of the run's identity
+		rt.LogBytes('2', s1.M2)
 		s2, f := Honest(other, b, a, simrand.Stream("G2"), simrand.Stream("E2"))
 		if f != nil {
 			fail = f
@@ -603,6 +605,8 @@ func (w *world) mutations(t *rt.Tape, trace bool, res *core.Result, smp *sample,
 		}
 		encs := [][]byte{s.M1, s.M2, s.M3, s.GS, s.ES}
 		names := []string{"round1", "round2", "round3", "garbler-session", "evaluator-session"}
+		rt.LogBytes('1', s.M1) // the case is part of the run's identity
+		rt.LogBytes('2', s.M2)
 		n := 40 + t.Choose(rt.SFault, 160)
 		for i := 0; i < n && fail == nil; i++ {
 			which := t.Choose(rt.SFault, 5)
